@@ -99,6 +99,17 @@ elif phase in ("recover", "recover_cb", "recover_udcb", "recover_shelve", "recov
             ok, v = False, f"{type(e).__name__}: {e}"
         if not ok:
             bad.append([os.path.relpath(p, cache), str(v)[:120]])
+    for p in glob.glob(os.path.join(cache, "**", "metadata.json"), recursive=True):
+        # ... and so must the entry's other file: one complete JSON document with the documented keys
+        try:
+            import json as _json
+            with open(p, "rb") as fh:
+                v = _json.loads(fh.read().decode("utf-8"))
+            ok = isinstance(v, dict) and "duration" in v and "input_args" in v
+        except Exception as e:  # noqa
+            ok, v = False, f"{type(e).__name__}: {e}"
+        if not ok:
+            bad.append([os.path.relpath(p, cache), str(v)[:120]])
     # 2) the cache must be usable: correct values, no exception
     err = None
     try:
